@@ -63,6 +63,7 @@ func cmdC16(args []string) {
 	seed := fs.Int64("seed", 1, "seed")
 	tier := fs.String("tier", "quick", "tier")
 	dir := fs.String("dir", ".", "output directory")
+	fs.Int("n", 0, "unused")
 	fs.Parse(args)
 	r := rand.New(rand.NewSource(*seed))
 	var sizes []int
